@@ -10,6 +10,9 @@ shape.  A source change that alters a site re-opens its theorem.
 import Nitime.Model.C15
 import Nitime.Lemmas.C15
 import Nitime.Lemmas.C15Rate
+import Nitime.Lemmas.C15Rate50
+import Nitime.Lemmas.C15Reader
+import Nitime.Generated.TransformCalls
 
 namespace Nitime.C15.Props
 open Nitime Nitime.C15
@@ -125,6 +128,39 @@ theorem forwarded_by_rate_axis_eq_input_general (src : Series) (p : Params)
   obtain ⟨⟨t0, dt, n, u⟩, fs⟩ := src
   simp [outputSeries, byRate, argInterval, argRate, argT0, argUnit, mkSeries, Except.map, bind, Except.bind]
 
+/-- **rate → interval round trip up to 2⁵⁰ ps** (≈ 18.8 minutes; twice the range of `rate_roundtrip`) for the units
+ps, ns, us, ms, s — those whose `10¹²/c_f` is itself a binary64 value, so that the stored rate costs two PAIRS of
+roundings `fl(y)`, `fl(1/fl(y))`.  A pair costs `(3/2 + ε/2)·ε` relative, not `2ε` (`Lemmas50.pair_rne`: half-ulp
+bound `|fl(a) − a| ≤ 2^⌊log₂ a⌋·2⁻⁵³`, exactness on powers of two), the recovered period is below 2⁵⁰ and therefore
+rounded with absolute error ≤ 1/16, total < 3/8 + 1/16 < 1/2 ps.  The bound is essentially the chain's own:
+`rate_roundtrip_fails_above_2_50` exhibits failures 3.4 % above it. -/
+theorem rate_roundtrip50 (u : TimeUnit) (hu : C15.Lemmas50.SubSecond u) (ps : Int) (h0 : 0 < ps) (hlt : ps < 2 ^ 50) :
+    quantise u (rateOfInterval u ps) = ps := by
+  rw [C15.Lemmas.quantise_rateOfInterval]
+  exact C15.Lemmas50.roundTrip_eq50 (cf u) ps (C15.Lemmas.cf_pos u) (C15.Lemmas50.cf_exact_quot u hu) h0 hlt
+
+/-- a rate-forwarding site returns the input's axis and rate for every input in ps…s whose stored rate is the
+constructor's, 0 < Δ < 2⁵⁰ ps -/
+theorem forwarded_by_rate_axis_eq_input_general50 (src : Series) (p : Params)
+    (hu : C15.Lemmas50.SubSecond src.ax.unit)
+    (hfs : src.fs = rateOfInterval src.ax.unit src.ax.dt) (h0 : 0 < src.ax.dt) (hlt : src.ax.dt < 2 ^ 50) :
+    outputAxis byRate src p src.ax.n = .ok src.ax ∧
+    (outputSeries byRate src p src.ax.n).map (·.fs) = .ok src.fs := by
+  refine ⟨(forwarded_by_rate_axis_eq_input src p).mpr (by rw [hfs]; exact rate_roundtrip50 _ hu _ h0 hlt), ?_⟩
+  obtain ⟨⟨t0, dt, n, u⟩, fs⟩ := src
+  simp [outputSeries, byRate, argInterval, argRate, argT0, argUnit, mkSeries, Except.map, bind, Except.bind]
+
+/-- **where the round trip fails**: the smallest failing intervals found (random search of ~10¹⁰ intervals per unit
+above 2⁵⁰ = 1 125 899 906 842 624 ps; none exists below by `rate_roundtrip50`): in ns, us, ms the interval comes back
+1 ps off from about 1.034·2⁵⁰ ps (≈ 19.4 min) on, in ps from 1.416·2⁵⁰, in s from 2.572·2⁵⁰ (≈ 48 min) -/
+theorem rate_roundtrip_fails_above_2_50 :
+    quantise .ns (rateOfInterval .ns 1164356337866151) ≠ 1164356337866151 ∧
+    quantise .us (rateOfInterval .us 1168597812801211) ≠ 1168597812801211 ∧
+    quantise .ms (rateOfInterval .ms 1173539304823849) ≠ 1173539304823849 ∧
+    quantise .ps (rateOfInterval .ps 1593752456449873) ≠ 1593752456449873 ∧
+    quantise .s (rateOfInterval .s 2896346326069847) ≠ 2896346326069847 := by
+  refine ⟨?_, ?_, ?_, ?_, ?_⟩ <;> decide +kernel
+
 /-- instances on the intervals that came back one picosecond short while `to_period` truncated -/
 theorem rate_roundtrip_examples :
     quantise .s (rateOfInterval .s 813270000000) = 813270000000 ∧
@@ -133,8 +169,9 @@ theorem rate_roundtrip_examples :
   ⟨rate_roundtrip _ _ (by norm_num) (by norm_num), rate_roundtrip _ _ (by norm_num) (by norm_num),
    rate_roundtrip _ _ (by norm_num) (by norm_num)⟩
 
-/-- the bound 2⁴⁹ is about the float chain, not an artefact: NOT proved beyond it (`_partial` gap: intervals
-≥ 2⁴⁹ ps ≈ 563 s, and a rate forwarded WITHOUT the unit from a series whose unit is not seconds, where the
+/-- NOT proved (`_partial` gap): intervals ≥ 2⁵⁰ ps in ps…s (where the chain really fails from 1.035·2⁵⁰ on, see
+`rate_roundtrip_fails_above_2_50`), ≥ 2⁴⁹ ps in m, h, D, W (`10¹²/c_f` is rounded there), and a rate forwarded WITHOUT
+the unit from a series whose unit is not seconds, where the
 re-derivation runs with the factor of 's' while the rate was computed with the series' factor — there the
 statement is checked per run only; one instance: -/
 theorem rate_roundtrip_cross_unit_partial :
@@ -347,5 +384,85 @@ theorem reader_interval_is_TR (src : Series) (n : Nat) :
   have h : cf .s = 10 ^ 12 := by decide +kernel
   simp [outputAxis, outputSeries, argInterval, argRate, argT0, argUnit, mkSeries, Except.map, bind, Except.bind,
     psOfFloat, h]
+
+/-! ### the reader over HISTORIES: read → modify the returned series in place → read again (`Model/C15Reader.lean`)
+
+Object identity is part of the model: every returned series' `.data` lives in a heap buffer, the caller may
+overwrite any buffer it was handed, and the reader may or may not keep hidden state between calls. -/
+open Nitime.C15.Reader in
+/-- **every read of every history returns the disk**: for the code as it is (`im = load(f)` per call, generated
+`ReaderLoads`), after ANY sequence of reads (single file / lists of files, with or without coordinates) and in-place
+writes into ANY series handed out before, a read returns exactly the voxel data on disk at the requested coordinates,
+runs appended in time — `expected` is a function of the initial disk alone -/
+theorem reader_faithful_after_any_history {α} (disk : List (File α)) (ops : List (Op α))
+    (fs : List Nat) (single : Bool) (c : Option Coords) :
+    lastData (read .freshLoad (run .freshLoad (init disk) ops) fs single c) = expected disk fs single c := by
+  rw [read_faithful, run_disk]; rfl
+
+open Nitime.C15.Reader in
+/-- … in fact from any state whatsoever (arbitrary heap contents and results) -/
+theorem reader_faithful_any_state {α} (st : St α) (fs : List Nat) (single : Bool) (c : Option Coords) :
+    lastData (read .freshLoad st fs single c) = expected st.disk fs single c := read_faithful st fs single c
+
+open Nitime.C15.Reader in
+/-- **no two series ever handed out share memory**, and each lives in an existing buffer -/
+theorem reader_results_never_alias {α} (disk : List (File α)) (ops : List (Op α)) :
+    (run .freshLoad (init disk) ops).results.Nodup ∧
+    ∀ id ∈ (run .freshLoad (init disk) ops).results, id < (run .freshLoad (init disk) ops).heap.length :=
+  let h := wf_run ops (init disk) (wf_init disk); ⟨h.2, h.1⟩
+
+open Nitime.C15.Reader in
+/-- **a live series changes only through its own modification**: in every reachable state, a further read (of
+anything) or a write into ANOTHER series leaves the data of series j as it was; a write into j sets it -/
+theorem reader_live_results_stable {α} (disk : List (File α)) (ops : List (Op α)) (op : Op α) (j : Nat)
+    (hj : j < (run .freshLoad (init disk) ops).results.length) (hop : ∀ r b, op = .write r b → r ≠ j) :
+    dataOf (step .freshLoad (run .freshLoad (init disk) ops) op) j = dataOf (run .freshLoad (init disk) ops) j ∧
+    ∀ b, dataOf (write (run .freshLoad (init disk) ops) j b) j = b :=
+  ⟨live_stable _ (wf_run ops _ (wf_init disk)) op j hj hop, fun b => write_own _ (wf_run ops _ (wf_init disk)) j hj b⟩
+
+open Nitime.C15.Reader in
+/-- a reader that KEEPS IMAGE OBJECTS between calls (a nibabel image hands out the array it cached) violates all
+three: whole volume → overwrite it → ROI of the same file returns the overwritten values, two whole-volume series
+share one buffer, and writing into one changes the other -/
+theorem reader_keepImages_counterexample :
+    let disk : List (File Nat) := [⟨1, 2, [[1, 2, 3], [4, 5, 6]]⟩]
+    let roi : Coords := ⟨[0], [0], [1]⟩
+    let h1 : List (Op Nat) := [.read [0] true none, .write 0 [[0, 0, 0], [0, 0, 0]]]
+    expected disk [0] true (some roi) = [[4, 5, 6]] ∧
+    lastData (read .keepImages (run .keepImages (init disk) h1) [0] true (some roi)) = [[0, 0, 0]] ∧
+    lastData (read .freshLoad (run .freshLoad (init disk) h1) [0] true (some roi)) = [[4, 5, 6]] ∧
+    (run .keepImages (init disk) [.read [0] true none, .read [0] true none]).results = [0, 0] ∧
+    dataOf (run .keepImages (init disk) [.read [0] true none, .read [0] true none, .write 0 [[9, 9, 9], [9, 9, 9]]]) 1
+      = [[9, 9, 9], [9, 9, 9]] := by
+  decide
+
+open Nitime.Generated.ReaderLoads in
+/-- **the reader as coded today is the `freshLoad` variant**: every `get_fdata()` of `nitime/fmri/io.py` is called on
+an image bound by `im = load(<file>)` (nibabel's `load`, not rebound) in the same function, the reader functions carry
+no decorator, and the module binds no name to a mutable container or call result (GENERATED; an image cache, a
+memoising decorator or a module-level store re-opens this) -/
+theorem reader_sites_fresh :
+    Nitime.Generated.ReaderLoads.all ≠ [] ∧ (∀ s ∈ Nitime.Generated.ReaderLoads.all, s.src = .freshLoad) ∧
+    moduleState = [] ∧ decorators = [] ∧ Nitime.C15.Reader.codeSrc = .freshLoad := by decide
+
+example : Reader.expected [(⟨1, 2, [[1, 2], [3, 4]]⟩ : Reader.File Nat), ⟨1, 2, [[5], [6]]⟩] [0, 1] false
+    (some ⟨[0, 0], [0, 0], [1, 0]⟩) = [[3, 4, 6], [1, 2, 5]] := by decide
+
+/-- the reader accepts exactly the documented `normalize` / `filter['method']` values; everything else is refused -/
+theorem reader_options_refused (nrm meth : String) :
+    Reader.optionsOk nrm meth = true ↔
+      (nrm = "-" ∨ nrm = "percent" ∨ nrm = "zscore") ∧
+      (meth = "-" ∨ meth = "boxcar" ∨ meth = "fourier" ∨ meth = "fir" ∨ meth = "iir") := by
+  simp [Reader.optionsOk, or_assoc]
+
+/-! ### transforms work on exactly the samples of the series (every length, not only 2-3-5-smooth ones) -/
+
+/-- **no analyzer hands a transform LENGTH to an FFT-type call** (`fft`, `ifft`, `rfft`, `hilbert`, … found through
+local aliases; GENERATED `TransformCalls`, 6 sites today): each transforms the N samples it is given, so the result is
+the algorithm's for EVERY N.  A call padded to `next_fast_len(N)` (identical for 2-3-5-smooth N, different for primes,
+999, 301, …) re-opens this; data fidelity itself is judged per run on stratified lengths -/
+theorem transforms_on_series_length :
+    Nitime.Generated.TransformCalls.all ≠ [] ∧
+    ∀ c ∈ Nitime.Generated.TransformCalls.all, c.lengthArg = false := by decide
 
 end Nitime.C15.Props
